@@ -289,7 +289,7 @@ func ruleC17(w *World, r *Report) {
 				r.check(g, "R17.4", pname, fmt.Sprintf("ParseUint #%d error refuses the range", n), w.Pos(c.Pos()), "constructor unreachable unless err == nil", "a port token that does not parse still yields a range")
 			}
 		})
-		r.floor("R17.4 ParseUint sites", n, 2)
+		r.check(n >= 2, "R17.4", pname, "both ends of a port token are parsed with a bounded unsigned parse", w.Pos(parsePort.Pos()), fmt.Sprintf("%d ParseUint sites", n), fmt.Sprintf("parsePort has %d strconv.ParseUint(…, 10, 16) sites (two ends of a range): a port number above 65535 is no longer an error and wraps when it is narrowed to 16 bits", n))
 		// every error return of parsePort leaves ep.ports untouched: the store to ep.ports happens only after the constructor
 		allInstrs(parsePort, func(i ssa.Instruction) {
 			st, ok := i.(*ssa.Store)
@@ -908,7 +908,6 @@ func appendedLiteral(p *Path, arg ssa.Value) string {
 	}
 	return res
 }
-
 
 // rulesFromCartesian: v is the rule list of CreatePortRangeCartesianProduct applied to the PDR's two
 // port ranges, possibly through repo helpers every success return of which hands that list on.
